@@ -5,7 +5,7 @@ P="$(realpath "$1")"; shift
 cd /repo || exit 2
 if [ -n "$(git status --porcelain --untracked-files=no)" ]; then echo "/repo dirty; refusing"; exit 2; fi
 git apply "$P" || { echo "$(basename $P): does not apply"; exit 2; }
-trap 'git -C /repo checkout -- .' EXIT
+trap 'git -C /repo checkout -- . ; git -C /repo clean -qfd rlib' EXIT
 for c in "$@"; do
   OUT="$(cd /verif && ./check $c quick 2>&1)"; RC=$?
   echo "benign=$(basename "$P") check=$c exit=$RC $(echo "$OUT" | grep -E 'signature|MACHINERY' | head -1 | cut -c1-200)"
